@@ -45,6 +45,14 @@ def s1_sources(tier, seed):
         for _ in range(15 if tier == "quick" else 120):
             cur = G.mutate(rng, cur if rng.random() < 0.5 else s)
             srcs.append(cur)
+    # whole files built around the item loop of parse_ast (every item kind, attributes, settings, doc comments; a quarter
+    # deliberately malformed) and their mutations: the structured inputs of the C10 whole-file differential
+    from . import c10 as F
+    for i in range(2500 if tier == "quick" else 30000):
+        text = F.gen_ast_file(rng, i)
+        srcs.append(text)
+        if i % 3 == 0:
+            srcs.append(G.mutate(rng, text))
     # indented strings / backticks with odd whitespace lines (unindent)
     ws = ["", " ", "  ", "\t", "\x0c", "\u00a0", "\u2028", "\x0b", "\u0085", " \x0c", "\r"]
     for d in ["'''", '"""', "```"]:
